@@ -3,12 +3,21 @@ package run
 import (
 	"verif/sim/core"
 	"verif/sim/sa"
+	"verif/sim/sb"
 	"verif/sim/sc"
 	"verif/sim/tape"
 )
 
+// c12Run: poll enumeration on single searches (S-B) and analysis-level halting sessions (S-A) in turn.
+func c12Run(t *tape.Tape) *core.RunResult {
+	if t.Chance(1, 2) {
+		return sa.SessionC12Iter(t)
+	}
+	return sb.SearchSessionC12(t)
+}
+
 func init() {
-	register(&Spec{Prop: "C16", RaceTier: true, QuickRuns: 3000, Level: "exploration", NeedsBubble: true, CrashIsViolation: true,
+	register(&Spec{Prop: "C16", RunawayKind: "task-never-ends", RaceTier: true, QuickRuns: 3000, Level: "exploration", NeedsBubble: true, CrashIsViolation: true,
 		Rule: "one run = one adversarial UCI session inside a synctest bubble: 4..40 lines (position one ply further/back along a base line so that the side to move alternates, every go variant, stop, isready, ucinewgame, setoption, torn / garbage / duplicated lines), delivered at tape-chosen moments while searches are parked mid-tree, forwarders and timers parked at their hooks, the clock advanced and the consumer stalled; it ends with quit or EOF, possibly mid-search. Judged: no panic in any goroutine (the worker process dying), no deadlock at a quiescent point, readyok per isready, every bestmove belongs to the go the driver last took and is legal in its position (stale answers are illegal by construction), at most one per go, output closed and Closed() fired after quit/EOF, no exit without quit/EOF/ill-formed input. Non-trivial = at least one go and >= 10 scheduling events; distinct = hash of the (task, point)/stimulus sequence",
 		Real: saReal, Stub: saStub,
 		Assumptions: []string{"a command takes effect when the command loop takes it (released from loop.recv), not when it is written to the input channel", "exiting on ill-formed input is the code's documented choice and accepted; continuing is accepted too", "data races as such are invisible to a serialising scheduler: they are the business of the free-running -race tier (DESIGN.md 2.7)"},
@@ -18,7 +27,7 @@ func init() {
 		Real: saReal, Stub: saStub,
 		Assumptions: []string{"only well-formed commands with legal moves (ill-formed input is C16's)", "clock values against the FEN standard are C14's business: here the reference for clocks is the same engine code set up from scratch"},
 		Run:         sa.SessionC10})
-	register(&Spec{Prop: "C15", QuickRuns: 4000, Level: "exploration", NeedsBubble: true, CrashIsViolation: true,
+	register(&Spec{Prop: "C15", RunawayKind: "search-does-not-end", QuickRuns: 4000, Level: "exploration", NeedsBubble: true, CrashIsViolation: true,
 		Rule:        "one run = one Iterative.Launch on a live board with history inside a synctest bubble: tape-drawn search configuration behind the gate, depth limit 0..max, optional real table, optional TimeControl (1 ms..10 min, 0..40 moves to go), 0..2 halter tasks calling Handle.Halt() at tape-chosen steps (before the first evaluation, between iterations, after the natural end, twice, together with the hard timer), a reader that keeps up or lags; the controller interleaves gate credits, hook releases, reads and clock advances. Judged: depths increasing (consecutive when the reader keeps up), each iteration equal to a direct fixed-depth search (table off), natural end exactly at the limit / at a forced mate within depth, Halt() never before depth 1 and never shallower than what was reported before it was requested and equal to a direct search at its depth, hard <= clock and soft <= hard, channel closes after halt/limit/hard timer once everything runs. Non-trivial = at least one iteration read and >= 5 scheduling events; distinct = hash of the (task, point) sequence",
 		Real:        []string{"pkg/search/searchctl (Iterative, handle, TimeControl, EnforceTimeControl)", "pkg/search (AlphaBeta, Quiescence, table)", "seekerror/stdlib iox.AsyncCloser, contextx.WithQuitCancel", "time (synctest fake clock)"},
 		Stub:        []string{"harness-supplied position-determined evaluator behind the gate", "the reader and the halters are simulator tasks"},
